@@ -246,6 +246,9 @@ func (x *Exec) execAlloc(fr *frame, t *ssa.Alloc, st *State, reach string) *Stat
 		if sfp != nil {
 			x.pending = &pendingStore{comp: comp, obj: r, before: before, sf: *sfp}
 		}
+		if g, ok := x.eng.onAlloc[comp]; ok {
+			x.assume("", "(not (select "+st.get("G_"+g)+" "+r+"))")
+		}
 	case *types.Array:
 		comp := x.so.elemComp(u.Elem())
 		st.set(comp, x.define(comp, x.so.comps[comp], "(store "+st.get(comp)+" "+r+" "+x.so.zeroOf(et)+")"))
